@@ -44,10 +44,10 @@ BUDGET = {'C10': {'quick': {'n': 5000, 'max_s': 150, 'chunk': 20}, 'thorough': {
 NAMES = sorted(api.ENTRIES)
 SEEDED = [nm for nm in NAMES if nm in ('anova_from_file', 'rand', 'rand_norm', 'rand_stab', 'core_qr_rand', 'sample', 'sample_square', 'sample_lhs', 'sample_rand',
                                        'sample_rand_poi', 'sample_tt', 'sample_func', 'anova', 'ANOVA', 'cross_act')]
-DEFAULT_DICT = ['cross', 'als', 'als_func', 'cache_to_data']
+DEFAULT_DICT = ['cross', 'als', 'als_func', 'cache_to_data', 'als_swap_default_info', 'als_vld_default_info']
 SOLVERS = ['cross', 'als', 'als_func', 'cross_act']
 # entries whose callbacks carry state across invocations: not eligible for "call again after the caller changed its data"
-REMOD_EXCLUDED = {'cross', 'als', 'rand_custom', 'getter', 'show'}
+REMOD_EXCLUDED = {'cross', 'als', 'rand_custom', 'getter', 'show', 'anova_from_file', 'als_swap_default_info', 'als_vld_default_info'}
 
 
 # ------------------------------------------------------------------ instrumented generator and world control
@@ -456,8 +456,11 @@ def generate(rng, prop, tier):
         clients.append(script)
     if rng.random() < 0.4:
         # a run of default-dictionary calls of one solver (sequential reuse of the module-level default)
-        fn = rng.choice(['cross', 'cross', 'als', 'als_func'])
-        clients[0] = [gen_spec(rng, force=fn) for _ in range(rng.randint(2, 4))] + clients[0][:2]
+        fn = rng.choice(['cross', 'cross', 'als', 'als_func', 'als_swap'])
+        if fn == 'als_swap':
+            clients[0] = [gen_spec(rng, force='als_swap_default_info'), gen_spec(rng, force='als_vld_default_info')] + clients[0][:2]
+        else:
+            clients[0] = [gen_spec(rng, force=fn) for _ in range(rng.randint(2, 4))] + clients[0][:2]
     return {'engine': NAME, 'n': n, 'clients': clients, 'sched_seed': rng.randrange(1 << 30),
             'perturb_rate': rng.choice([0.0, 0.2, 0.5]), 'world_seed': rng.randrange(1 << 30)}
 
